@@ -1,69 +1,85 @@
 """E5 (metabolism part): the constants of ATP_Store's metabolic-state classifier -> lean/Operon/Gen/MetabolismConsts.lean.
 
-Pure `ast` analysis of operon_ai/state/metabolism.py (nothing is imported).  Facts:
+What is a *shape* is read from the AST of `_update_state`; what is a *value* is obtained by EVALUATING the
+expression in the namespace of the imported module (names resolve to their values: `_DEBT_RATIO_WEIGHT = 1 / 2`,
+a class attribute, a literal and `0.25 * 2` are all the same fact 1/2):
 
-  starving / conserving / feasting   class attributes STARVING_THRESHOLD, CONSERVING_THRESHOLD, FEASTING_THRESHOLD
-                                     (exact rationals: a float literal is read through its shortest repr, 0.1 = 1/10)
-  debtWeight                         the constant K of `ratio -= (self._debt / total_capacity) * K` in _update_state
-  chain                              the classification chain of _update_state in source order:
-                                     (comparison operator, threshold attribute, MetabolicState member) per `if/elif`,
-  elseState                          the member assigned in the final `else`
+  chain       the classification chain of _update_state in source order: per `if/elif`
+              (comparison operator, VALUE of the threshold expression as an exact fraction, MetabolicState member)
+  elseState   the member assigned in the final `else`
+  debtWeight  the VALUE of K in `ratio -= (<debt> / <capacity>) * K` (or K * (...), or `ratio = ratio - …`)
 
-Fail closed: a fact whose shape is not recognised is emitted as `none` / `[]` / "?", which makes
-`c04_classifier_constants_as_modelled` fail (and the driver fall back to a classifier that cannot agree).
+(floats are read through their shortest repr: 0.1 = 1/10.)  The module is the one the harness imported from the
+tree under test (`operon_ai.state.metabolism`, checked to live under the repository root).
+
+Fail closed: a fact whose shape is not recognised / whose value cannot be evaluated to a non-negative number is
+emitted as `none` / `[]` / "?", which makes `c04_classifier_constants_table` fail and the driver's classifier
+unable to agree.
 """
 from __future__ import annotations
 
 import ast
+import importlib
+import os
 from fractions import Fraction
 from pathlib import Path
 
 OUT_REL = "Operon/Gen/MetabolismConsts.lean"
-ATTRS = {"starving": "STARVING_THRESHOLD", "conserving": "CONSERVING_THRESHOLD", "feasting": "FEASTING_THRESHOLD"}
-OPS = {ast.LtE: "le", ast.Lt: "lt", ast.GtE: "ge", ast.Gt: "gt", ast.Eq: "eq", ast.NotEq: "ne"}
+OPS = {ast.LtE: "le", ast.Lt: "lt", ast.GtE: "ge", ast.Gt: "gt"}
 
 
 class Unrecognised(Exception):
     pass
 
 
-def _num(node) -> Fraction:
-    if isinstance(node, ast.Constant) and isinstance(node.value, (int, float)) and not isinstance(node.value, bool):
-        f = Fraction(repr(node.value))
-        if f < 0:
-            raise Unrecognised("negative constant")
-        return f
-    raise Unrecognised(f"not a non-negative numeric literal: {ast.dump(node)[:60]}")
+def load_module(repo: Path):
+    """the metabolism module of the tree under test (already importable: the harness put the root first on sys.path)"""
+    try:
+        m = importlib.import_module("operon_ai.state.metabolism")
+    except Exception as e:  # noqa
+        raise Unrecognised(f"cannot import operon_ai.state.metabolism: {e!r}")
+    f = os.path.realpath(getattr(m, "__file__", "") or "")
+    if not f.startswith(os.path.realpath(str(repo)) + os.sep):
+        raise Unrecognised(f"operon_ai.state.metabolism imported from {f}, not from {repo}")
+    return m
 
 
-def _class(tree):
+def _safe(node) -> bool:
+    """only names, attributes, numeric literals and arithmetic: nothing with side effects is ever evaluated"""
+    for n in ast.walk(node):
+        if not isinstance(n, (ast.Name, ast.Attribute, ast.Constant, ast.BinOp, ast.UnaryOp, ast.Load, ast.operator,
+                              ast.unaryop, ast.Expression)):
+            return False
+    return True
+
+
+def evaluate(node, module, cls) -> Fraction:
+    """value of a constant expression of the source: `self.X` / `cls.X` / module-level names / literals / arithmetic"""
+    if not _safe(node):
+        raise Unrecognised(f"not a constant expression: {ast.unparse(node)[:60]}")
+    try:
+        code = compile(ast.Expression(body=node), "<const>", "eval")
+        v = eval(code, dict(vars(module)), {"self": cls, "cls": cls})  # class attributes stand in for instance lookups
+    except Exception as e:  # noqa
+        raise Unrecognised(f"cannot evaluate {ast.unparse(node)[:60]}: {e!r}")
+    if isinstance(v, bool) or not isinstance(v, (int, float)):
+        raise Unrecognised(f"{ast.unparse(node)[:60]} is not a number")
+    f = Fraction(repr(v)) if isinstance(v, float) else Fraction(v)
+    if f < 0:
+        raise Unrecognised("negative constant")
+    return f
+
+
+def _fn(tree, name):
     for n in tree.body:
         if isinstance(n, ast.ClassDef) and n.name == "ATP_Store":
-            return n
-    raise Unrecognised("class ATP_Store not found")
-
-
-def _class_attr(cls, name) -> Fraction:
-    vals = []
-    for n in cls.body:
-        if isinstance(n, ast.Assign) and any(isinstance(t, ast.Name) and t.id == name for t in n.targets):
-            vals.append(_num(n.value))
-        if isinstance(n, ast.AnnAssign) and isinstance(n.target, ast.Name) and n.target.id == name and n.value is not None:
-            vals.append(_num(n.value))
-    if len(vals) != 1:
-        raise Unrecognised(f"{name}: {len(vals)} class-level assignments")
-    return vals[0]
-
-
-def _fn(cls, name):
-    for n in cls.body:
-        if isinstance(n, ast.FunctionDef) and n.name == name:
-            return n
+            for m in n.body:
+                if isinstance(m, ast.FunctionDef) and m.name == name:
+                    return m
     raise Unrecognised(f"ATP_Store.{name} not found")
 
 
-def _debt_weight(fn) -> Fraction:
-    """`ratio -= (<x> / <y>) * K` or `ratio -= K * (<x> / <y>)` or `ratio = ratio - …` — exactly one such statement"""
+def _debt_weight(fn, module, cls) -> Fraction:
     found = []
     for n in ast.walk(fn):
         val = None
@@ -79,7 +95,7 @@ def _debt_weight(fn) -> Fraction:
         if isinstance(val, ast.BinOp) and isinstance(val.op, ast.Mult):
             for q, k in ((val.left, val.right), (val.right, val.left)):
                 if isinstance(q, ast.BinOp) and isinstance(q.op, ast.Div):
-                    found.append(_num(k))
+                    found.append(evaluate(k, module, cls))
                     break
             else:
                 raise Unrecognised("debt term is not (a / b) * K")
@@ -92,18 +108,22 @@ def _debt_weight(fn) -> Fraction:
     return found[0]
 
 
-def _state_assigned(body) -> str:
-    """the single statement `self._state = MetabolicState.X` of a branch -> 'x'"""
+def _state_assigned(body, module) -> str:
+    """the single effective statement `self._state = <MetabolicState member>` of a branch -> 'x'"""
+    body = [st for st in body if not (isinstance(st, ast.Expr) and isinstance(st.value, (ast.Constant, ast.Call)))]
     if len(body) == 1 and isinstance(body[0], ast.Assign) and len(body[0].targets) == 1:
         t, v = body[0].targets[0], body[0].value
-        if isinstance(t, ast.Attribute) and t.attr == "_state" and isinstance(v, ast.Attribute) \
-                and isinstance(v.value, ast.Name) and v.value.id == "MetabolicState":
-            return v.attr.lower()
-    raise Unrecognised("branch is not a single `self._state = MetabolicState.X`")
+        if isinstance(t, ast.Attribute) and t.attr == "_state" and _safe(v):
+            try:
+                val = eval(compile(ast.Expression(body=v), "<state>", "eval"), dict(vars(module)), {})
+            except Exception as e:  # noqa
+                raise Unrecognised(f"cannot evaluate {ast.unparse(v)}: {e!r}")
+            if isinstance(val, module.MetabolicState):
+                return str(val.value)
+    raise Unrecognised("branch is not a single `self._state = <MetabolicState member>`")
 
 
-def _chain(fn):
-    """the if/elif/else chain comparing `ratio` with self.<THRESHOLD> -> ([(op, attr, state)], else_state)"""
+def _chain(fn, module, cls):
     heads = [n for n in fn.body if isinstance(n, ast.If) and isinstance(n.test, ast.Compare)
              and isinstance(n.test.left, ast.Name) and n.test.left.id == "ratio"]
     if len(heads) != 1:
@@ -113,23 +133,24 @@ def _chain(fn):
     while True:
         t = node.test
         if not (isinstance(t, ast.Compare) and len(t.ops) == 1 and isinstance(t.left, ast.Name) and t.left.id == "ratio"
-                and type(t.ops[0]) in OPS and isinstance(t.comparators[0], ast.Attribute)
-                and isinstance(t.comparators[0].value, ast.Name) and t.comparators[0].value.id == "self"):
-            raise Unrecognised("chain test is not `ratio <op> self.<ATTR>`")
-        out.append((OPS[type(t.ops[0])], t.comparators[0].attr, _state_assigned(node.body)))
+                and type(t.ops[0]) in OPS):
+            raise Unrecognised("chain test is not `ratio <op> <constant>`")
+        out.append((OPS[type(t.ops[0])], evaluate(t.comparators[0], module, cls), _state_assigned(node.body, module)))
         if len(node.orelse) == 1 and isinstance(node.orelse[0], ast.If):
             node = node.orelse[0]
             continue
-        return out, _state_assigned(node.orelse)
+        return out, _state_assigned(node.orelse, module)
 
 
 def extract_facts(repo: Path) -> dict:
-    names = list(ATTRS) + ["debtWeight", "chain"]
+    names = ["debtWeight", "chain"]
     try:
-        tree = ast.parse((repo / "operon_ai" / "state" / "metabolism.py").read_text())
-        cls = _class(tree)
+        module = load_module(repo)
+        cls = module.ATP_Store
+        tree = ast.parse(Path(module.__file__).read_text())
+        fn = _fn(tree, "_update_state")
     except Exception as e:  # noqa
-        return {n: Unrecognised(f"cannot read metabolism.py: {e!r}") for n in names}
+        return {n: Unrecognised(f"{e}") for n in names}
     facts = {}
 
     def guard(name, thunk):
@@ -139,41 +160,35 @@ def extract_facts(repo: Path) -> dict:
             facts[name] = e
         except Exception as e:  # noqa
             facts[name] = Unrecognised(repr(e))
-    for k, attr in ATTRS.items():
-        guard(k, lambda attr=attr: _class_attr(cls, attr))
-    guard("debtWeight", lambda: _debt_weight(_fn(cls, "_update_state")))
-    guard("chain", lambda: _chain(_fn(cls, "_update_state")))
+    guard("debtWeight", lambda: _debt_weight(fn, module, cls))
+    guard("chain", lambda: _chain(fn, module, cls))
     return facts
 
 
 def render(facts: dict) -> str:
-    def rat(v):
-        if isinstance(v, Unrecognised):
-            return f"none  -- UNRECOGNISED: {str(v)[:100]}"
-        return f"some ({v.numerator}, {v.denominator})"
     lines = ["/- GENERATED by harness/vf/extract/e5_metabolism.py from operon_ai/state/metabolism.py — do not edit. -/",
              "namespace Operon.Gen.Metabolism", ""]
-    for k in ATTRS:
-        lines.append(f"/-- ATP_Store.{ATTRS[k]} as an exact fraction (numerator, denominator) -/")
-        lines.append(f"def {k} : Option (Nat × Nat) := {rat(facts[k])}")
-    lines.append("/-- the constant K of `ratio -= (self._debt / total_capacity) * K` -/")
-    lines.append(f"def debtWeight : Option (Nat × Nat) := {rat(facts['debtWeight'])}")
+    w = facts["debtWeight"]
+    lines.append("/-- the value of K in `ratio -= (self._debt / total_capacity) * K`, as (numerator, denominator) -/")
+    lines.append("def debtWeight : Option (Nat × Nat) := "
+                 + (f"none  -- UNRECOGNISED: {str(w)[:100]}" if isinstance(w, Unrecognised)
+                    else f"some ({w.numerator}, {w.denominator})"))
     ch = facts["chain"]
-    lines.append("/-- the classification chain of `_update_state`: (comparison of `ratio` with, threshold attribute, state) -/")
+    lines.append("/-- the classification chain of `_update_state`: (comparison of `ratio` with, value of the threshold, state) -/")
     if isinstance(ch, Unrecognised):
-        lines.append(f"def chain : List (String × String × String) := []  -- UNRECOGNISED: {str(ch)[:100]}")
+        lines.append(f"def chain : List (String × (Nat × Nat) × String) := []  -- UNRECOGNISED: {str(ch)[:100]}")
         lines.append('def elseState : String := "?"')
     else:
-        items = ", ".join(f'("{op}", "{attr}", "{st}")' for (op, attr, st) in ch[0])
-        lines.append(f"def chain : List (String × String × String) := [{items}]")
+        items = ", ".join(f'("{op}", ({v.numerator}, {v.denominator}), "{st}")' for (op, v, st) in ch[0])
+        lines.append(f"def chain : List (String × (Nat × Nat) × String) := [{items}]")
         lines.append(f'def elseState : String := "{ch[1]}"')
     lines += ["", "end Operon.Gen.Metabolism", ""]
     return "\n".join(lines)
 
 
 def run(repo: Path, lean: Path, write_if_changed) -> dict:
-    facts = extract_facts(repo)
-    changed = write_if_changed(lean / OUT_REL, render(facts))
+    facts = extract_facts(Path(repo))
+    changed = write_if_changed(Path(lean) / OUT_REL, render(facts))
     bad = [k for k, v in facts.items() if isinstance(v, Unrecognised)]
     return {"id": "E5-metabolism", "facts_changed": bool(changed), "unrecognised": bad,
-            "facts": {k: (str(v) if not isinstance(v, tuple) else repr(v)) for k, v in facts.items()}}
+            "facts": {k: str(v) for k, v in facts.items()}}
